@@ -138,3 +138,14 @@ package index
 //gvc:  ensures whole: err == nil && !spec_time_zero(t.wall, t.ext) ==> sec == spec_time_unix(t.wall, t.ext)
 //gvc:  ensures zero: spec_time_zero(t.wall, t.ext) ==> err == nil && sec == 0 && nsec == 0
 //gvc:end
+
+// encode (C12: every index go-git writes is read by git): a header is written
+// only for the versions git reads (2 to 4), whatever the number of entries.
+//gvc:func (*Encoder).encode
+//gvc:  props C12
+//gvc:  theory int
+//gvc:  opt coarse
+//gvc:  opt frame args
+//gvc:  requires nn: idx != nil
+//gvc:  sink encodeHeader requires version: 2 <= idx.Version && idx.Version <= 4
+//gvc:end
